@@ -21,7 +21,7 @@ prop("C20",
      why="the Lean model of cmd/internal/playtak/fpa.go (fixed) is proved to script only legal, self-accepted moves (Props/C20.lean); the real code disagrees with it on this opening line")
 prop("C04mcts",
      generators=["C04mcts"],
-     rule="cornerMove on every opening position (empty board / one stone on any square) of sizes 3..8 with every random-bit string of 0..6 draws, and on random later positions; populate on random positions (children and proven marks, in order); update on random root-to-leaf paths (depth 1..5, proven marks incl. unusual values, siblings); the whole Monte-Carlo player (both policies + default, corner forcing on/off, limits 100-150 ms) on live positions: answer checked against the legal set",
+     rule="cornerMove on every opening position (empty board / one stone on any square) of sizes 3..8 with every random-bit string of 0..6 draws, and on random later positions; populate on random positions (children and proven marks, in order); update on random root-to-leaf paths (depth 1..5, proven marks incl. unusual values, siblings); the whole Monte-Carlo player (both policies + default, corner forcing on/off, limits 150-250 ms) on live positions: answer checked against the legal set",
      assumptions=["Monte-Carlo behaviour inside a real time limit is sampled, not modelled: UCB floats, math/rand, the clock, rollouts and sort.Sort are oracles of the model; the theorem is generic in them"])
 
 
